@@ -30,8 +30,8 @@ ID = "C10"
 LEVEL = "fault_enumeration"
 RULE = (
     "bases = the valid, cheap-default configurations of the C04 space (every q-th in enumeration order: round trips "
-    "quick q=12 / thorough q=2; fault bases: the first 2 (thorough 12) of each list size; history bases: first 1 "
-    "(thorough 3) of each size) + 7 hand-written extras (string-typed numbers and comma strings, a '%' inside a string option, float / percent "
+    "quick q=12 / thorough q=2; fault bases: 2 (thorough 12) per list size, evenly spaced in enumeration order; "
+    "history bases: 1 (thorough 3) per size) + 7 hand-written extras (string-typed numbers and comma strings, a '%' inside a string option, float / percent "
     "vary_rounds incl. '12.5%', a context-keyword scheme, truncate_error, an unregistered custom hasher object with "
     "category options).  Round-trip routes: dict, string, bytes, path, copy, update_empty, load_self, load_dict, "
     "load_string, update with each valid single change.  Fault space = base x kind/variant (unknown scheme, unknown "
